@@ -654,7 +654,10 @@ func (c *Conn) reconnect(ctx context.Context) error {
 	}
 	c.wireConn = res
 	if !c.state.CompareAndSwap(connStatusReconnecting, connStatusConnected) {
-		panic(errors.Errorf("unexpected error: expected reconnecting but %v", c.state.current))
+		// Close was called while the re-dial was in progress: Close is final, so the
+		// freshly dialled wire connection is dropped instead of being used.
+		res.Close()
+		return errors.ErrConnectionClosed
 	}
 	return nil
 }
